@@ -92,6 +92,10 @@ def harness(eng, sp):
                 disp.earliest_start_time(D.op_by_id(inst, o))
             disp.ongoing_operations()
             disp.uncompleted_operations()
+            for o in spec.unscheduled_ops():      # look-ahead for operations that are not ready yet
+                for mm in desc.machines[o]:
+                    disp.start_time(D.op_by_id(inst, o), mm)
+            disp.min_start_time(disp.unscheduled_operations())
         op, m = D.choose_dispatch(eng, desc, spec)
         lop = D.op_by_id(inst, op)
         expected = spec.forced_start(op, m)
